@@ -74,6 +74,8 @@ ITER_FRAGMENT = [
     ("Iter_advance_back_by", r"impl<'a, T> Iter<'a, T>", "advance_back_by", "_root_.CircBuf.Iter.advanceBackBy"),
     ("Iter_over_range", r"impl<'a, T> Iter<'a, T>", "over_range", "_root_.CircBuf.Iter.overRange"),
     ("Iter_len", r"impl<T> ExactSizeIterator for Iter<'_, T>", "len", "_root_.CircBuf.Iter.len"),
+    ("Iter_next", r"impl<'a, T> Iterator for Iter<'a, T>", "next", "fun it => pure (_root_.CircBuf.Iter.next it)"),
+    ("Iter_next_back", r"impl<T> DoubleEndedIterator for Iter<'_, T>", "next_back", "fun it => pure (_root_.CircBuf.Iter.nextBack it)"),
 ]
 # the draining iterator (`src/drain.rs`): its constructor, `read`, and the stepping methods.  `self` is a
 # `Drain { bufSize, rs, re, is, ie }` value named `d` (`buf_size`, `range.start/end`, `iter.start/end`); the
@@ -784,6 +786,17 @@ class Emit:
                 raise TErr("ptr::read of something other than a slot")
             t = self.fresh("x")
             return p + [f"let {t} ← readInit {v}"], t, "elem"
+        if name in ("slice_take_first", "slice_take_last", "slice_take_first_mut", "slice_take_last_mut") and self.iter_mode:
+            # slice_take_first(&mut self.right): `None`, slice untouched, when it is empty; otherwise the first
+            # element is returned and the slice keeps the rest
+            a0 = args[0] if len(args) == 1 else None
+            if not (a0 and a0[0] == "ref" and a0[1] and a0[2][0] == "field" and a0[2][1] == ("path", "self")
+                    and a0[2][2] in ("right", "left")):
+                raise TErr(f"{name}: unexpected arguments")
+            fld = a0[2][2]
+            fn = "takeFirst" if "first" in name else "takeLast"
+            t = self.fresh("r")
+            return [f"let {t} := View.{fn} it.{fld}", f"let it : Iter := {{ it with {fld} := {t}.2 }}"], f"{t}.1", "optnat"
         if name == "Some":
             p, v, kk = self.ex(args[0])
             return p, f"some {par(v)}", "opt"
@@ -1438,6 +1451,8 @@ def parse_sig(sig, iter_mode=False):
             params.append((n, None, "rangebounds"))
         else:
             raise TErr(f"parameter type {t}")
+    if iter_mode is True and ret == "Option<Self::Item>" and recv_mut:
+        return params, ("Option Nat × Iter", "optit!")     # `&mut self`: the updated iterator is returned too
     if iter_mode == "csp":
         if ret == "Self":
             return params, ("CSP", "csp")
@@ -1481,6 +1496,10 @@ def translate_iter(src, gname, impl_re, fname, fragment):
         # tails in the body are unit: hand the updated iterator back
         lines = [re.sub(r"^(\s*)pure \(\)$", r"\1pure it", l) for l in lines]
         rkind = "iter"
+    if rkind == "optit!":
+        # every `pure (v)` of these bodies is a result: hand the updated iterator back with it
+        lines = [re.sub(r"^(\s*)pure \((.*)\)$", r"\1pure (\2, it)", l) for l in lines]
+        rkind = "opt"
     ps = "".join(f" ({lean_name(n)} : {t})" for n, t in lean_params)
     head = f"/-- translated from `fn {fname}` ({impl_re or 'free function of iter.rs'}) -/\ndef Gen.{gname}{ps} : M ({rty}) := do"
     return head + "\n" + "\n".join(ind(lines)), rkind, [t for _, t in lean_params], rty
@@ -1705,7 +1724,8 @@ def generate(force_fallback):
     ipath = os.path.join(os.path.dirname(os.path.abspath(sys.argv[1])), "iter.rs")
     ITER_SIG = {"translate_range_bounds": "Bound → Bound → M (Nat × Nat)", "Iter_empty": "M (Iter)", "Iter_new": "M (Iter)",
                 "Iter_advance_front_by": "Iter → Nat → M (Iter)", "Iter_advance_back_by": "Iter → Nat → M (Iter)",
-                "Iter_over_range": "Bound → Bound → M (Iter)", "Iter_len": "Iter → M (Nat)"}
+                "Iter_over_range": "Bound → Bound → M (Iter)", "Iter_len": "Iter → M (Nat)",
+                "Iter_next": "Iter → M (Option Nat × Iter)", "Iter_next_back": "Iter → M (Option Nat × Iter)"}
     try:
         isrc = strip_comments(open(ipath).read())
     except OSError:
